@@ -13,13 +13,13 @@ Cases == ndJsonDeserialize(IOEnv.CASES)
 Obs == ndJsonDeserialize(IOEnv.OBS)
 RECURSIVE FromObs(_)
 FromObs(n) == [kind |-> n.kind, ns |-> n.ns, name |-> n.name, attrs |-> {n.attrs[i] : i \in 1..Len(n.attrs)},
-               kids |-> [i \in 1..Len(n.kids) |-> FromObs(n.kids[i])], text |-> n.text]
+               kids |-> TLCEval([i \in 1..Len(n.kids) |-> FromObs(TLCEval(n.kids[i]))]), text |-> n.text]
 Want(e) == Canon(Expand(Cases[e.i].lex, << >>))
 \* token kinds of the model: character data and CDATA are both "text"
 WantTokens(e) == Tokens(Expand(Cases[e.i].lex, << >>))
 TreeOK(e, res, err) == err = "" /\ Len(res) = 1 /\ FromObs(res[1]) = Want(e)
 RawOK(e) == /\ ~e.panic /\ e.origwf
-            /\ TreeOK(e, e.marshal, e.merr) /\ TreeOK(e, e.second, e.serr) /\ TreeOK(e, e.embed, e.eerr)
+            /\ TreeOK(e, e.marshal, e.merr) /\ TreeOK(e, e.second, e.serr) /\ TreeOK(e, e.embed, e.eerr) /\ TreeOK(e, e.reused, e.rerr)
             /\ e.finite /\ Balanced(e.tokens) /\ e.tokens = WantTokens(e)
 \* valid documents decode, and equally both ways; for the namespace variants only the agreement is required (both fail, or
 \* both yield the same value)
@@ -27,15 +27,16 @@ TypedOK(e) == ~e.panic /\ (e.valid => ~e.derr /\ ~e.rerr) /\ e.derr = e.rerr /\ 
 Accept(e) == IF e.k = "raw" THEN RawOK(e) ELSE IF e.k = "typed" THEN TypedOK(e) ELSE FALSE
 
 RECURSIVE HasUndecl(_), HasDefault(_), HasPfxEl(_), HasUnprefixedUnderPfx(_, _)
-HasUndecl(n) == n.kind = "el" /\ ((\E i \in 1..Len(n.decls) : n.decls[i].pfx = "" /\ n.decls[i].uri = "") \/ \E i \in 1..Len(n.kids) : HasUndecl(n.kids[i]))
-HasDefault(n) == n.kind = "el" /\ ((\E i \in 1..Len(n.decls) : n.decls[i].pfx = "" /\ n.decls[i].uri # "") \/ \E i \in 1..Len(n.kids) : HasDefault(n.kids[i]))
-HasPfxEl(n) == n.kind = "el" /\ (n.pfx # "" \/ \E i \in 1..Len(n.kids) : HasPfxEl(n.kids[i]))
+HasUndecl(n) == n.kind = "el" /\ ((\E i \in 1..Len(n.decls) : n.decls[i].pfx = "" /\ n.decls[i].uri = "") \/ \E i \in 1..Len(n.kids) : HasUndecl(TLCEval(n.kids[i])))
+HasDefault(n) == n.kind = "el" /\ ((\E i \in 1..Len(n.decls) : n.decls[i].pfx = "" /\ n.decls[i].uri # "") \/ \E i \in 1..Len(n.kids) : HasDefault(TLCEval(n.kids[i])))
+HasPfxEl(n) == n.kind = "el" /\ (n.pfx # "" \/ \E i \in 1..Len(n.kids) : HasPfxEl(TLCEval(n.kids[i])))
 \* an element in no namespace below an element that is in one
-HasUnprefixedUnderPfx(x, inNs) == x.kind = "el" /\ ((inNs /\ x.ns = "") \/ \E i \in 1..Len(x.kids) : HasUnprefixedUnderPfx(x.kids[i], x.ns # ""))
+HasUnprefixedUnderPfx(x, inNs) == x.kind = "el" /\ ((inNs /\ x.ns = "") \/ \E i \in 1..Len(x.kids) : HasUnprefixedUnderPfx(TLCEval(x.kids[i]), x.ns # ""))
 Which(e) == IF e.panic THEN "panic" ELSE IF ~e.origwf THEN "harness-document-not-well-formed"
             ELSE IF ~TreeOK(e, e.marshal, e.merr) THEN (IF e.merr # "" THEN "marshal-output-unreadable" ELSE "marshal-tree-differs")
             ELSE IF ~TreeOK(e, e.second, e.serr) THEN (IF e.serr # "" THEN "token-reader-output-unreadable" ELSE "token-reader-tree-differs")
             ELSE IF ~TreeOK(e, e.embed, e.eerr) THEN (IF e.eerr # "" THEN "embedded-in-prop-output-unreadable" ELSE "embedded-in-prop-tree-differs")
+            ELSE IF ~TreeOK(e, e.reused, e.rerr) THEN (IF e.rerr # "" THEN "captured-into-a-used-value-output-unreadable" ELSE "captured-into-a-used-value-tree-differs")
             ELSE IF ~e.finite THEN "token-stream-endless" ELSE "token-stream-differs"
 Shape(e) == LET lx == Cases[e.i].lex x == Expand(lx, << >>) IN
             (IF x.ns = "" THEN " root-in-no-namespace" ELSE "") \o (IF HasUnprefixedUnderPfx(x, FALSE) THEN " no-namespace-element-below-namespaced" ELSE "")
@@ -44,8 +45,8 @@ Shape(e) == LET lx == Cases[e.i].lex x == Expand(lx, << >>) IN
 RECURSIVE Inherit(_, _)
 Inherit(n, inh) == IF n.kind # "el" THEN n
                    ELSE LET moved == n.ns = "" /\ inh IN
-                        [n EXCEPT !.ns = IF moved THEN "DAV:" ELSE n.ns, !.kids = [i \in 1..Len(n.kids) |-> Inherit(n.kids[i], moved)]]
-EmbedOnly(e) == TreeOK(e, e.marshal, e.merr) /\ TreeOK(e, e.second, e.serr) /\ ~TreeOK(e, e.embed, e.eerr) /\ e.eerr = ""
+                        [n EXCEPT !.ns = IF moved THEN "DAV:" ELSE n.ns, !.kids = TLCEval([i \in 1..Len(n.kids) |-> Inherit(TLCEval(n.kids[i]), moved)])]
+EmbedOnly(e) == TreeOK(e, e.marshal, e.merr) /\ TreeOK(e, e.second, e.serr) /\ TreeOK(e, e.reused, e.rerr) /\ ~TreeOK(e, e.embed, e.eerr) /\ e.eerr = ""
                 /\ Expand(Cases[e.i].lex, << >>).ns = "" /\ Len(e.embed) = 1
                 /\ FromObs(e.embed[1]) = Inherit(Want(e), TRUE)
 Sig(e) == IF e.k = "raw" /\ EmbedOnly(e) THEN "raw embedded-in-prop root-in-no-namespace: the root (and no-namespace elements directly below it) inherit the typed parent's default namespace"
